@@ -361,7 +361,8 @@ def known_finding_lines(prop):
         try:
             with open(path) as fh:
                 doc = json.load(fh)
-            res = profile.execute(from_jsonable(doc['case']))
+            # through the same wrapper as the search: the case's generic knobs (low memory, exception in flight) apply
+            res = _exec_checked(profile, from_jsonable(doc['case']), [])
             still = any(findings_mod.match([f], v) for v in res.violations)
         except Exception as exc:
             print('HARNESS-ERROR reproducer %s failed to run: %r' % (path, exc))
